@@ -41,13 +41,19 @@ func genReadScn(t *rapid.T, excl map[string]bool) readScn {
 	total := 0
 	for i := 0; i < nc; i++ {
 		c := readCall{}
-		c.Op = rapid.SampledFrom([]string{"next", "next", "peek", "skip", "rbin", "slice", "read", "rbyte"}).Draw(t, "op")
+		c.Op = rapid.SampledFrom([]string{"next", "next", "peek", "skip", "rbin", "slice", "read", "rbyte", "until"}).Draw(t, "op")
 		c.N = rapid.IntRange(1, 12).Draw(t, "n")
 		if c.Op == "rbyte" {
 			c.N = 1
 		}
 		c.Timeout = rapid.SampledFrom([]string{"none", "none", "timeout", "timeout", "deadline", "past"}).Draw(t, "timeout")
 		if excl["F6"] && s.FDConn && c.Timeout != "none" {
+			c.Timeout = "none"
+		}
+		if c.Op == "until" {
+			// Until(delim) with delim = the stream's byte N-1 positions ahead (or its first earlier occurrence).
+			// Untimed only: on an error Until hands out what is buffered (documented), which the clause
+			// "a timeout consumes no data" is not about.
 			c.Timeout = "none"
 		}
 		s.Calls = append(s.Calls, c)
@@ -82,6 +88,7 @@ type readResult struct {
 	consumedAt int
 	returned   bool
 	started    bool
+	need       int // bytes the call needs (N; for until: up to and including the first delimiter)
 	err        error
 	panicked   interface{}
 	badData    string
@@ -142,6 +149,17 @@ func runRead(t *rapid.T, s readScn, replay []vs.Step) *readOutcome {
 			res.startLen = c.inputBuffer.Len()
 			res.startStep = w.s.StepCount()
 			res.consumedAt = o.consumed
+			res.need = call.N
+			var delim byte
+			if call.Op == "until" {
+				delim = keyed(o.consumed + call.N - 1)
+				for k := 0; k < call.N; k++ {
+					if keyed(o.consumed+k) == delim {
+						res.need = k + 1
+						break
+					}
+				}
+			}
 			w.ev(fmt.Sprintf("call%d+", i))
 			func() {
 				defer func() {
@@ -184,10 +202,19 @@ func runRead(t *rapid.T, s readScn, replay []vs.Step) *readOutcome {
 					var k int
 					k, err = c.Read(buf)
 					p = buf[:k]
+				case "until":
+					p, err = c.Reader().Until(delim)
+					if err != nil && len(p) > 0 {
+						// documented: on an error Until returns (and consumes) what is buffered
+						if string(p) != string(keyedBytes(o.consumed, len(p))) {
+							res.badData = fmt.Sprintf("until returned, with its error, %d bytes that differ from the stream at offset %d", len(p), o.consumed)
+						}
+						o.consumed += len(p)
+					}
 				}
 				res.err = err
 				if err == nil {
-					want := call.N
+					want := res.need
 					if call.Op == "read" {
 						want = len(p)
 						if want < 1 || want > call.N {
@@ -287,7 +314,7 @@ func judgeRead(s readScn, o *readOutcome) (sig, msg string) {
 			if !res.started {
 				break
 			}
-			enough := o.sent-res.consumedAt >= call.N
+			enough := o.sent-res.consumedAt >= res.need
 			if enough || peerClose >= 0 || userClose >= 0 {
 				return "lost-wakeup", fmt.Sprintf("%s is blocked for ever although enough=%v peerClosed=%v userClosed=%v (sent %d, consumed before %d) | events: %s | %s", desc, enough, peerClose >= 0, userClose >= 0, o.sent, res.consumedAt, logs, w.s.Describe())
 			}
@@ -311,7 +338,7 @@ func judgeRead(s readScn, o *readOutcome) (sig, msg string) {
 			if call.Timeout != "past" && !firedInCall {
 				return "timeout-without-expiry", desc + " returned ErrReadTimeout although the timer did not expire during the call (stale tick or trigger) | events: " + logs
 			}
-			if res.startLen >= call.N {
+			if res.startLen >= res.need {
 				return "timeout-with-data", fmt.Sprintf("%s returned ErrReadTimeout although %d bytes were already buffered | events: %s", desc, res.startLen, logs)
 			}
 		case errors.Is(res.err, ErrEOF):
@@ -321,7 +348,7 @@ func judgeRead(s readScn, o *readOutcome) (sig, msg string) {
 			if !errors.Is(res.err, ErrConnClosed) {
 				return "eof-not-closed", desc + ": the EOF error does not match ErrConnClosed"
 			}
-			if o.sent-res.consumedAt >= call.N && userClose < 0 {
+			if o.sent-res.consumedAt >= res.need && userClose < 0 {
 				return "eof-with-data", fmt.Sprintf("%s returned ErrEOF although the peer had sent %d bytes of which %d were consumed | events: %s", desc, o.sent, res.consumedAt, logs)
 			}
 		case errors.Is(res.err, ErrConnClosed):
@@ -331,7 +358,7 @@ func judgeRead(s readScn, o *readOutcome) (sig, msg string) {
 		default:
 			return "unexpected-error", fmt.Sprintf("%s returned %v | events: %s", desc, res.err, logs)
 		}
-		if res.startLen >= call.N && res.err != nil && userClose < 0 {
+		if res.startLen >= res.need && res.err != nil && userClose < 0 {
 			return "error-with-data", fmt.Sprintf("%s started with %d bytes buffered but returned %v | events: %s", desc, res.startLen, res.err, logs)
 		}
 	}
